@@ -541,3 +541,62 @@ func casPolarity(c *core.Ctx, R string) {
 		c.Check(R, r.unit+"/effects-on-CAS-success-edge", cas.Pos(), ok && n >= 1, keyf("%d effect(s), all on the success edge", n))
 	}
 }
+
+// noBaseBypass — C11.8 / C12.3b / C03.8b: the transports use embedding as
+// inheritance. A call through the embedded field (p.Transport.M(), j.Polling.M())
+// runs the *base* implementation; where the embedding type overrides M that is a
+// "super" call and is legitimate only inside the override itself. Anywhere
+// else it silently skips the override (polling.OnClose is what releases a
+// pending poll before the transport is marked closed).
+func noBaseBypass(c *core.Ctx, R string) {
+	c.Rule(R, "no bypass of an overriding method: in package transports a call through an embedded field (x.Transport.M / x.Polling.M) whose embedding struct type itself declares M is allowed only inside that overriding method (a super call); elsewhere the call must go through the outer value so that the override runs — polling.OnClose (release of the pending poll), polling.OnData, jsonp.OnData/DoWrite")
+	n, supers := 0, 0
+	for _, u := range c.P.Units {
+		if u.Pkg == nil || u.Pkg.Types == nil || u.Pkg.Types.Name() != "transports" {
+			continue
+		}
+		info := u.Info()
+		for _, cl := range u.Calls() {
+			if cl.Recv == nil {
+				continue
+			}
+			fs, ok := ast.Unparen(cl.Recv).(*ast.SelectorExpr)
+			if !ok {
+				continue
+			}
+			sel := info.Selections[fs]
+			if sel == nil || sel.Kind() != types.FieldVal {
+				continue
+			}
+			fv, _ := sel.Obj().(*types.Var)
+			if fv == nil || !fv.Embedded() {
+				continue
+			}
+			// the embedding struct type
+			outer := sel.Recv()
+			if pt, ok := outer.(*types.Pointer); ok {
+				outer = pt.Elem()
+			}
+			named, _ := types.Unalias(outer).(*types.Named)
+			if named == nil {
+				continue
+			}
+			n++
+			overrides := false
+			for i := 0; i < named.NumMethods(); i++ {
+				if named.Method(i).Name() == cl.Name {
+					overrides = true
+				}
+			}
+			if !overrides {
+				continue
+			}
+			supers++
+			root := u.Root()
+			inOverride := root.Decl != nil && root.Decl.Name.Name == cl.Name && root.Decl.Recv != nil && len(root.Decl.Recv.List) == 1 && core.TypeName(info.TypeOf(root.Decl.Recv.List[0].Type)) == named.Obj().Name() && u == root
+			c.Check(R, keyf("%s/%s.%s.%s()", u.Key, named.Obj().Name(), fv.Name(), cl.Name), cl.Pos(), inOverride, keyf("%s overrides %s: the base implementation may be called only from the override itself", named.Obj().Name(), cl.Name))
+		}
+	}
+	c.Need(R, "calls through an embedded transport field", n, 6)
+	c.Need(R, "super calls inside their override", supers, 4)
+}
